@@ -257,15 +257,23 @@ func (t *Template) expectString(context string) string {
 // It runs to EOF.
 func (t *Template) parseTemplate(cacheAfterParsing bool) (next Node) {
 	t.Root = t.newList(t.peek().pos)
+	// whitespace-only text is dropped only next to leading extends/import clauses:
+	// leading is the whitespace seen before any such clause, it is kept if none follows
+	var leading *item
 	// {{ extends|import stringLiteral }}
 	for t.peek().typ != itemEOF {
 		delim := t.next()
 		if delim.typ == itemText && strings.TrimSpace(delim.val) == "" {
+			if t.extends == nil && len(t.imports) == 0 {
+				ws := delim
+				leading = &ws
+			}
 			continue //skips empty text nodes
 		}
 		if delim.typ == itemLeftDelim {
 			token := t.nextNonSpace()
 			if token.typ == itemExtends || token.typ == itemImport {
+				leading = nil
 				s := t.expectString("extends|import")
 				if token.typ == itemExtends {
 					if t.extends != nil {
@@ -294,6 +302,10 @@ func (t *Template) parseTemplate(cacheAfterParsing bool) (next Node) {
 			t.backup()
 			break
 		}
+	}
+
+	if leading != nil {
+		t.Root.append(t.newText(leading.pos, leading.val))
 	}
 
 	for t.peek().typ != itemEOF {
